@@ -106,16 +106,22 @@ CALL = re.compile(r"when calling (case_\d+\(.*?\))(?: \(which returns| \||$)", r
 
 
 def parse_counterexample(msg, fn):
-    m = re.search(r"when calling (%s\(.*\))(?: \(which returns .*\))?\s*(?:\||$)" % re.escape(fn), msg, re.S)
-    if not m:
-        return None
-    call = m.group(1)
-    # strip a trailing "(which returns ...)" if the greedy match swallowed it
-    call = re.sub(r"\) \(which returns.*$", ")", call, flags=re.S)
-    try:
-        return eval(call, {fn: lambda *a, **k: (a, k), "__builtins__": {"float": float, "True": True, "False": False, "None": None}})
-    except Exception:
-        return None
+    """arguments of the reported call: the shortest prefix 'fn(...)' after 'when calling' that evaluates (messages may
+    repeat the call, and exception texts may contain parentheses)"""
+    env = {fn: lambda *a, **k: (a, k), "__builtins__": {"float": float, "True": True, "False": False, "None": None}}
+    for m in re.finditer(r"when calling (?=%s\()" % re.escape(fn), msg):
+        start = m.end()
+        pos = start
+        while True:
+            pos = msg.find(")", pos)
+            if pos < 0:
+                break
+            pos += 1
+            try:
+                return eval(msg[start:pos], env)
+            except Exception:
+                continue
+    return None
 
 
 def run_cases(cases, per_condition_timeout=90, nproc=None, workdir=None, keep=False):
